@@ -206,6 +206,23 @@ FEATURES = [
      lambda a, v: _rq(a, v, 'GET', '/resource_providers?required=!HW_CPU_X86_AVX').status == 200),
     ('code in error responses', 23,
      lambda a, v: 'code' in _rq(a, v, 'GET', '/resource_providers/%s' % U(99)).json['errors'][0]),
+    # ... whoever produces the error: a handler (above), the router (404 / 405), the application's header checks (400),
+    # the version window of a handler (405 below its introduction), the policy check (403), a schema (400), a conflict (409)
+    ('code in the 404 of an unknown route', 23,
+     lambda a, v: 'code' in (_rq(a, v, 'GET', '/no_such_route').json or {'errors': [{}]})['errors'][0]),
+    ('code in the 405 of an undeclared method', 23,
+     lambda a, v: 'code' in (_rq(a, v, 'PATCH', '/resource_providers').json or {'errors': [{}]})['errors'][0]),
+    ('code in the 400 of a body without content type', 23,
+     lambda a, v: 'code' in (a.request('PUT', '/resource_providers/%s' % RP_A, body=None, version='1.%d' % v,
+                                       headers=dict(SVC, **{'content-length': '2'})).json or {'errors': [{}]})['errors'][0]),
+    ('code in the 403 of the policy check', 23,
+     lambda a, v: 'code' in (a.request('GET', '/resource_providers', version='1.%d' % v,
+                                       headers={'x-roles': 'member'}).json or {'errors': [{}]})['errors'][0]),
+    ('code in the 400 of a schema violation', 23,
+     lambda a, v: 'code' in (_rq(a, v, 'POST', '/resource_providers', {'name': 1}).json or {'errors': [{}]})['errors'][0]),
+    ('code in the 409 of a generation conflict', 23,
+     lambda a, v: 'code' in (_rq(a, v, 'PUT', '/resource_providers/%s/traits' % RP_A,
+                                 {'resource_provider_generation': 9999, 'traits': []}).json or {'errors': [{}]})['errors'][0]),
     ('repeated member_of on GET /resource_providers', 24,
      lambda a, v: _rq(a, v, 'GET', '/resource_providers?member_of=%s&member_of=%s' % (AGG, AGG)).status == 200),
     ('granular request groups', 25,
